@@ -6,7 +6,7 @@ Runtime monitoring at the boundary the property names: the return value / raised
 `config_spec.yaml` (plus one synthetic mode-settings spec that spells out every validator type, registered through
 the public `load_mode_config_spec`) is fed generated hostile values.  An independent oracle
 (`vlib/c12_oracle.py`: type table per validator, declared ranges/enums, completeness, unknown/dropped keys, exact
-rational time reference) judges every returned config; any exception is a rejection and therefore fine.  The spec and
+rational time reference, list/set cardinality: a provided scalar/element never vanishes) judges every returned config; any exception is a rejection and therefore fine.  The spec and
 the `build_spec` cache are compared with a private reference copy after every call.
 """
 import math
@@ -24,7 +24,7 @@ RULE = ("case = ~500 operations: (a) for a contiguous slice of the enumerated (s
         "against a synthetic spec covering every validator x container form incl. one-sided ranges; (d) direct "
         "string_to_ms/secs calls on number x suffix x case x blank combinations.  distinct = set of "
         "(op kind, validator family, value class, outcome) tuples of the case; non-trivial = type, completeness, "
-        "unknown-key, dropped-key, spec-unchanged and time oracles were each evaluated at least once")
+        "unknown-key, dropped-key, list-normalisation, spec-unchanged and time oracles were each evaluated at least once")
 ASSUMPTIONS = [
     "any exception out of validate_config/string_to_ms/secs counts as rejection (statement: 'or rejects ... with an error')",
     "None is accepted as the value of any type when the input (or the spec default) is None/'none' (MPF's null), and "
@@ -36,6 +36,9 @@ ASSUMPTIONS = [
     "an accepted suffix",
     "keys starting with '_' are internal by convention and exempt from the unknown-key clause; sections with "
     "__allow_others__ accept any key; 'ignore' keys are passed through unjudged",
+    "list/set normalisation: a scalar (also 0, 0.0, False) must become exactly one element, n list elements or n comma "
+    "separated parts stay n (sets 1..n), a non-empty dict/tuple must not come back empty; nothing is demanded for None, "
+    "'', 'none'-like strings, strings containing '{' (pattern-split event templates) and EMPTY dicts/tuples",
     "dict-typed values whose keys collide after key normalisation (1 vs '1') are not judged as dropped keys: the "
     "statement's dropped-key clause is read as being about keys of the section",
     "colour component ranges and kivycolor lengths are not declared in the spec and are not demanded; gain is only "
@@ -59,7 +62,7 @@ TIERS = {
 }
 _MIN_QUICK = {"type": 450000, "range": 26000, "enum": 19000, "complete": 300000, "unknown_key": 1100,
               "dropped_key": 75000, "spec_unchanged": 110000, "time_direct": 5000, "time_validator": 30000,
-              "default": 300000, "machine": 4500}
+              "default": 300000, "machine": 4500, "list_norm": 20000}
 # about half of what a run on the unchanged tree evaluates (quick: 480 cases; thorough: 20x as many)
 MIN_EVALS = {"quick": _MIN_QUICK, "thorough": {k: v * 20 for k, v in _MIN_QUICK.items()}}
 SHRINK_KEYS = ["ops"]
@@ -298,7 +301,8 @@ def targeted(rng, validator, index_spec, depth=0):
     if name == "int_from_hex":
         return rng.choice(["ff", "FF", "1ff", "zz", 10, "0x1f", "", "-1", " a", 1.5, True, "1_0"])
     if name == "list":
-        return rng.choice(["a, b", ["a", "b"], "a", 5, 1.5, True, None, "", D(("a", 1)), [[1]], "none, a"])
+        return rng.choice(["a, b", ["a", "b"], "a", 5, 1.5, True, None, "", D(("a", 1)), [[1]], "none, a",
+                           0, 0.0, False, D(), [], [0], "0", "a,,b", [None, 0]])
     if name == "dict":
         if param:
             kv, vv = param.split(":", 1)
@@ -325,6 +329,9 @@ def item_value(rng, entry, index_spec, depth=0):
     if item_type == "single":
         return targeted(rng, validation, index_spec, depth)
     if item_type in ("list", "set"):
+        if k < 0.42:
+            # falsy scalars and empty non-lists: a scalar is a one-element list, also when it is 0 / 0.0 / False
+            return rng.choice([0, 0.0, False, -0.0, 0, False, D(), True, 1, 7, 2.5])
         n = rng.choice([0, 1, 1, 2, 3])
         vals = [targeted(rng, validation, index_spec, depth + 1) for _ in range(n)]
         if k < 0.5 and all(isinstance(v, (str, int, float)) and not isinstance(v, bool) for v in vals) and vals:
@@ -831,7 +838,7 @@ def run_case(case):
         if v["sig"] not in seen:
             seen.add(v["sig"])
             uniq.append(v)
-    nontrivial = all(clauses.get(c, 0) > 0 for c in ("type", "complete", "unknown_key", "dropped_key",
+    nontrivial = all(clauses.get(c, 0) > 0 for c in ("type", "complete", "unknown_key", "dropped_key", "list_norm",
                                                       "spec_unchanged", "time_direct"))
     import hashlib
     kinds = sorted(set(s[0] + ":" + str(s[2]) for s in shapes))
